@@ -112,6 +112,16 @@ theorem C35_subst_expr_lemma_on_scripts (g : G) (ps P : Props) (row : Row) (scri
   intro es _
   simp [List.map_map, Function.comp, C35_subst_expr_lemma]
 
+/-- a parameter inside a NESTED list / map literal keeps its place and its structure: the
+substituted literal evaluates to the nested value itself, never to a flattened or nulled
+element — for every value `v`, graph and row (class of the seeded change C35-c) -/
+theorem C35_nested_literal_keeps_structure (g : G) (row : Row) (v : V) :
+    eval g [] row (substE [(0, v)] (.lcons (.lcons (.param 0) .lnil) (.lcons (.lit (.int 2)) .lnil)))
+      = .ok (.cons (.cons v .nil) (.cons (.int 2) .nil))
+    ∧ eval g [] row (substE [(0, v)] (.lcons (.mcons 0 (.param 0) .mnil) .lnil))
+      = .ok (.cons (.mcons 0 v .mnil) .nil) :=
+  ⟨rfl, rfl⟩
+
 /-! ### three-valued logic: null is not false -/
 
 /-- AND / OR / XOR / NOT of the model are Kleene's: an unknown operand stays unknown unless
